@@ -18,6 +18,18 @@ CHECKS = {
         design="3/C13"),
 }
 
+CHECKS["C05"] = dict(
+    text="TLC checks on spec/Values.tla+Exec.tla that the reference operators satisfy independent declarative laws on the "
+         "operand window (floor division, sign of %, exact division, inclusive ranges, trichotomy, concatenation, in/not in, "
+         "power, number->string->number, callbacks once each in source order). TLC then enumerates expression trees (all "
+         "depth-1 trees over 25 binary operators and 45 other forms x 28 operands, a seeded stride of depth 2-3), evaluates "
+         "the reference and prints value, output and callback log; each vector is replayed into Env.Execute and compared.",
+    note="Trusted: the reference semantics in spec/Exec.tla (written from the Twig documentation, region where stick's "
+         "coercions and Twig agree; other cases are dropped as out of model and counted), the Go unparser and recording "
+         "callbacks of the harness, TLC.",
+    technique="TLA+ reference interpreter model-checked with TLC; TLC-generated vectors replayed into the Go code",
+    design="3/C05")
+
 NOT_YET = {}
 
 props = [json.loads(l)["id"] for l in open(os.path.join(VERIF, "properties.jsonl"))]
